@@ -157,9 +157,16 @@ func Run(t *core.T) {
 	total := 0
 	for i, qs := range b.Plan {
 		want[i] = make([]qt.Result, len(qs))
+		var prev []orb.Pointer // the task's previous result, which chained queries hand back as their buffer
 		for j, q := range qs {
 			q, i, j := q, i, j
-			if t.Guard(qt.QueryNames[q.Kind], func() { want[i][j] = q.Exec(b.Twin) }) {
+			if t.Guard(qt.QueryNames[q.Kind], func() {
+				r := q.ExecBuf(b.Twin, prev)
+				if !r.IsOne {
+					prev = r.Many
+				}
+				want[i][j] = r.Clone()
+			}) {
 				return
 			}
 			if oracle, msg := b.Model.Check(q, want[i][j]); oracle != "" {
@@ -208,18 +215,28 @@ func Run(t *core.T) {
 		}
 	}
 	held := make([][]qt.Result, len(b.Plan)) // what each query returned, kept until the epoch is over
+	clobbered := make([][]bool, len(b.Plan))         // results the task itself handed back as a buffer
 	for i := range b.Plan {
 		held[i] = make([]qt.Result, len(b.Plan[i]))
+		clobbered[i] = make([]bool, len(b.Plan[i]))
 	}
 	for i := range b.Plan {
 		i := i
 		k.Go(fmt.Sprintf("reader%d", i), func(task *kernel.Task) {
+			var prev []orb.Pointer
+			last := -1
 			for j, q := range b.Plan[i] {
 				task.OpSteps = 0
 				var got qt.Result
-				if t.Guard(qt.QueryNames[q.Kind], func() { got = q.Exec(b.Tree) }) {
+				if q.BufCap == qt.Chain && last >= 0 {
+					clobbered[i][last] = true // the task gave that slice away itself
+				}
+				if t.Guard(qt.QueryNames[q.Kind], func() { got = q.ExecBuf(b.Tree, prev) }) {
 					k.Abort("panic")
 					return
+				}
+				if !got.IsOne {
+					prev, last = got.Many, j
 				}
 				t.Logf("reader%d: %v -> %v", i, q, got)
 				held[i][j] = got
@@ -256,7 +273,7 @@ func Run(t *core.T) {
 	// a result must stay what it was after the query returned (no aliasing of shared storage)
 	for i := range held {
 		for j := range held[i] {
-			if !held[i][j].SameAs(want[i][j]) {
+			if !clobbered[i][j] && !held[i][j].SameAs(want[i][j]) {
 				t.Violate("result-stable", qt.QueryNames[b.Plan[i][j].Kind], "", "reader%d: the slice returned by %v changed after the query had returned it: now %v, was %v", i, b.Plan[i][j], held[i][j], want[i][j])
 				return
 			}
@@ -292,7 +309,7 @@ func RunRace(t *core.T) {
 		want[i] = make([]qt.Result, len(qs))
 		for j, q := range qs {
 			q, i, j := q, i, j
-			if t.Guard(qt.QueryNames[q.Kind], func() { want[i][j] = q.Exec(b.Twin) }) {
+			if t.Guard(qt.QueryNames[q.Kind], func() { want[i][j] = q.Exec(b.Twin).Clone() }) {
 				return
 			}
 		}
@@ -311,15 +328,19 @@ func RunRace(t *core.T) {
 		go func() {
 			defer func() { done <- struct{}{} }()
 			<-start
+			var prev []orb.Pointer
 			for r := 0; r < rounds; r++ {
 				for j, q := range b.Plan[i] {
 					var got qt.Result
-					if pi := core.Catch(func() { got = q.Exec(b.Tree) }); pi != nil {
+					if pi := core.Catch(func() { got = q.ExecBuf(b.Tree, prev) }); pi != nil {
 						diffs[i] = append(diffs[i], diff{i: i, j: j, pi: pi})
 						return
 					}
 					if !got.SameAs(want[i][j]) {
-						diffs[i] = append(diffs[i], diff{i: i, j: j, got: got})
+						diffs[i] = append(diffs[i], diff{i: i, j: j, got: got.Clone()})
+					}
+					if !got.IsOne {
+						prev = got.Many
 					}
 				}
 			}
